@@ -430,6 +430,8 @@ class Ctx:
 
     def report(self, signature, what: str, case) -> bool:
         """Record a concrete failing input. Returns True when it is a listed known finding."""
+        sc = self.extra.setdefault("signature_counts", {})
+        sc[json.dumps(signature)] = sc.get(json.dumps(signature), 0) + 1
         e = self.known_entry(signature)
         if e is not None:
             k = json.dumps(signature)
